@@ -193,6 +193,7 @@ func (ch c09) Run(c *core.Ctx) {
 		q := fmt.Sprintf("T%d", i)
 		sess.Progs[q] = &hs.Prog{Stmts: []*hs.Stmt{st}}
 		var in []byte
+		limit := uint32(0)
 		if t.Mode == "simple" {
 			in = pg.Query(q)
 		} else {
@@ -220,11 +221,33 @@ func (ch c09) Run(c *core.Ctx) {
 				in = append(in, pg.Parse("", "other-table", nil)...)
 				c.Count("reparse_before_execute", 1)
 			}
-			in = append(in, pg.Execute("", 0)...)
-			in = append(in, pg.Sync()...)
+			if i%5 == 2 && len(t.Rows) >= 2 {
+				// a row limit below the number of rows: a server that ignores the limit sends everything,
+				// one that honours it suspends the portal and sends the rest on further Executes - either
+				// way the DataRows, put together, are the rows written (the handler re-uses its row slice)
+				st.ReuseRow = true
+				limit = uint32(1 + i%(len(t.Rows)-1))
+				c.Count("executes_with_row_limit", 1)
+			}
+			in = append(in, pg.Execute("", limit)...)
+			if limit == 0 {
+				in = append(in, pg.Sync()...)
+			} else {
+				in = append(in, pg.Flush()...)
+			}
 		}
 		evStart := len(cl.C.Events())
 		out, closed := cl.Step(in)
+		for n := 0; limit > 0 && !closed; n++ {
+			k := pg.Types(mustMsgs(out))
+			if !strings.HasSuffix(k, "s") || n > len(t.Rows)+2 {
+				more, cl2 := cl.Step(pg.Sync())
+				out, closed = append(out, more...), cl2
+				break
+			}
+			more, cl2 := cl.Step(append(pg.Execute("", limit), pg.Flush()...))
+			out, closed = append(out, more...), cl2
+		}
 		delete(sess.Progs, q)
 		if hangCheck(c, cl, nil) {
 			return
